@@ -83,15 +83,17 @@ type shapeT struct {
 	input func(texts []string) string // builds the input from one or two texts
 	ntext int
 	join  bool // scalar: texts joined; slice: each element
+	each  bool // two separate captures into the field: each is converted on its own, a scalar keeps the last
 }
 
 var shapes = []shapeT{
-	{"@Num", `@Num`, numLexerWhole, func(t []string) string { return t[0] }, 1, true},
-	{"@Num after space", `@Num`, numLexerWhole, func(t []string) string { return "  " + t[0] }, 1, true},
-	{`@~"," after space`, `@~","`, numLexerWhole, func(t []string) string { return " \n  " + t[0] }, 1, true},
-	{`@("-" Num)`, `@("-" Num)`, numLexer, func(t []string) string { return "- " + t[0] }, 1, true},
-	{"@(Num Num)", `@(Num Num)`, numLexerWhole, func(t []string) string { return t[0] + " " + t[1] }, 2, true},
-	{"@Num*", `@Num*`, numLexerWhole, func(t []string) string { return t[0] + " " + t[1] }, 2, false},
+	{"@Num", `@Num`, numLexerWhole, func(t []string) string { return t[0] }, 1, true, false},
+	{"@Num after space", `@Num`, numLexerWhole, func(t []string) string { return "  " + t[0] }, 1, true, false},
+	{`@~"," after space`, `@~","`, numLexerWhole, func(t []string) string { return " \n  " + t[0] }, 1, true, false},
+	{`@("-" Num)`, `@("-" Num)`, numLexer, func(t []string) string { return "- " + t[0] }, 1, true, false},
+	{"@(Num Num)", `@(Num Num)`, numLexerWhole, func(t []string) string { return t[0] + " " + t[1] }, 2, true, false},
+	{"@Num*", `@Num*`, numLexerWhole, func(t []string) string { return t[0] + " " + t[1] }, 2, false, false},
+	{"@Num @Num", `@Num @Num`, numLexerWhole, func(t []string) string { return t[0] + " " + t[1] }, 2, false, true},
 }
 
 func intTexts() []string {
@@ -228,7 +230,7 @@ func c17jobs() []c17job {
 	for _, k := range kinds {
 		for _, v := range variants {
 			for _, sh := range shapes {
-				if !sh.join && !v.sl {
+				if !sh.join && !v.sl && !sh.each {
 					continue // (@Num)* into a scalar is not covered by the statement
 				}
 				out = append(out, c17job{k, v, sh})
@@ -278,8 +280,8 @@ func runC17(w *hx.Worker, j c17job, only string) {
 			// what gets converted
 			var pieces []string
 			flat := piecesFlat(j, t1, t2)
-			if j.v.sl {
-				pieces = flat // a slice takes each captured token as its own element
+			if j.v.sl || j.sh.each {
+				pieces = flat // a slice takes each captured token as its own element; separate captures are converted one by one
 			} else {
 				pieces = []string{strings.Join(flat, "")} // a scalar joins the tokens of one capture first
 			}
@@ -314,7 +316,7 @@ func runC17(w *hx.Worker, j c17job, only string) {
 				if err != nil && firstErr == nil {
 					firstErr = err
 					if !j.sh.join {
-						first = ntoks[i] // (@Num)*: every iteration is a capture of its own
+						first = ntoks[i] // (@Num)* / @Num @Num: every capture is a capture of its own
 					}
 				}
 				want = append(want, o)
@@ -352,7 +354,7 @@ func runC17(w *hx.Worker, j c17job, only string) {
 					if j.v.sl && fv.Len() > 0 && firstErr != nil && len(pieces) == 1 {
 						w.Violate(hx.Violation{Key: key, Class: "value-stored-despite-error", Detail: map[string]any{"value": fmt.Sprint(fv.Interface())}})
 					}
-					if !j.v.sl {
+					if !j.v.sl && !j.sh.each {
 						x := fv
 						for x.Kind() == reflect.Ptr && !x.IsNil() {
 							x = x.Elem()
@@ -383,6 +385,9 @@ func runC17(w *hx.Worker, j c17job, only string) {
 					x = x.Elem()
 				}
 				got = []reflect.Value{x}
+			}
+			if j.sh.each && !j.v.sl && len(want) > 0 {
+				want = want[len(want)-1:]
 			}
 			if len(got) != len(want) {
 				w.Violate(hx.Violation{Key: key, Class: "wrong-element-count", Detail: map[string]any{"got": fmt.Sprint(fv.Interface()), "want_elements": len(want)}})
@@ -698,6 +703,34 @@ func runC17SameName(w *hx.Worker) {
 				}
 				w.DistinctS("same" + ty.t.Kind().String() + tx)
 			}
+		}
+	}
+}
+
+// runC17Empty: a captured token whose text is empty (EOF) is a text like any other: "" is not a number.
+func runC17Empty(w *hx.Worker, k kindT) {
+	for _, v := range variants {
+		st := reflect.StructOf([]reflect.StructField{{Name: "V", Type: v.mk(k), Tag: `"x"? @EOF`}})
+		p, err := participle.Build[any](participle.Lexer(numLexerWhole), participle.Elide("Space"), participle.Union[any](reflect.New(st).Elem().Interface()))
+		if err != nil {
+			continue // a field type that cannot take @EOF
+		}
+		for _, in := range []string{"", "x", "  "} {
+			key := fmt.Sprintf("empty field=%s(%s) :: in=%q", k.name, v.name, in)
+			w.Count("evaluations", 1)
+			var res *any
+			var perr error
+			pan, msg := hx.Guard(func() { res, perr = p.ParseString("", in) })
+			var ne *strconv.NumError
+			switch {
+			case pan:
+				w.Violate(hx.Violation{Key: key, Class: "panic", Detail: map[string]any{"panic": msg}})
+			case perr == nil:
+				w.Violate(hx.Violation{Key: key, Class: "invalid-number-accepted", Detail: map[string]any{"ast": g2s(res), "strconv": "the captured text is empty"}})
+			case !errors.As(perr, &ne):
+				w.Violate(hx.Violation{Key: key, Class: "error-does-not-name-conversion", Detail: map[string]any{"error": perr.Error()}})
+			}
+			w.DistinctS("empty" + k.name + v.name)
 		}
 	}
 }
@@ -1298,6 +1331,58 @@ func runC18SameType(w *hx.Worker, inputs []string) {
 	}
 }
 
+// runC18Stacked: a parser built on another parser's Lexer() sees the tokens AS THAT PARSER'S MAPPERS LEFT
+// THEM and applies its own on top: inner first, then outer; positions and types untouched.
+func runC18Stacked(w *hx.Worker, inputs []string) {
+	wrap := func(l, r string) participle.Mapper {
+		return func(t lexer.Token) (lexer.Token, error) { t.Value = l + t.Value + r; return t, nil }
+	}
+	first, err1 := participle.Build[GAB](participle.Lexer(abLexer), participle.Elide("S"), participle.Map(wrap("<", ">"), "A"), participle.Upper("B"))
+	if err1 != nil {
+		w.Violate(hx.Violation{Key: "mapper-stacked", Class: "build-failed", Detail: map[string]any{"err": err1.Error()}})
+		return
+	}
+	second, err2 := participle.Build[GAB](participle.Lexer(first.Lexer()), participle.Elide("S"), participle.Upper("A"), participle.Map(wrap("{", "}"), "A", "B"))
+	if err2 != nil {
+		w.Violate(hx.Violation{Key: "mapper-stacked", Class: "build-failed", Detail: map[string]any{"err": err2.Error()}})
+		return
+	}
+	plain, _ := participle.Build[GAB](participle.Lexer(abLexer), participle.Elide("S"))
+	sym := abLexer.Symbols()
+	for _, in := range inputs {
+		key := fmt.Sprintf("mapper-stacked :: second parser built on first.Lexer() :: in=%q", in)
+		w.Count("evaluations", 1)
+		base, e0 := plain.Lex("", strings.NewReader(in))
+		got, e1 := second.Lex("", strings.NewReader(in))
+		if e0 != nil || e1 != nil {
+			continue
+		}
+		bad := ""
+		if len(got) != len(base) {
+			bad = "token count changed"
+		}
+		for i := 0; bad == "" && i < len(base); i++ {
+			b := base[i]
+			want := b.Value
+			switch {
+			case b.EOF():
+			case b.Type == sym["A"]:
+				want = "{" + strings.ToUpper("<"+b.Value+">") + "}" // first: <a>; second: Upper, then {}
+			case b.Type == sym["B"]:
+				want = "{" + strings.ToUpper(b.Value) + "}"
+			}
+			if got[i].Value != want || got[i].Type != b.Type || got[i].Pos != b.Pos {
+				bad = fmt.Sprintf("token %d: %#v, expected value %q with the type and position of %#v", i, got[i], want, b)
+			}
+		}
+		if bad != "" {
+			w.Violate(hx.Violation{Key: key, Class: "mapper-combination", Detail: map[string]any{"what": bad}})
+			continue
+		}
+		w.DistinctS("stacked" + fmt.Sprint(got))
+	}
+}
+
 // ---------------------------------------------------------------- plumbing
 
 func chunks(ss []string, n int) [][]string {
@@ -1347,6 +1432,7 @@ func plan(c *hx.Ctx) *hx.Plan {
 					runC17Nested(w, kinds[i-len(js)])
 					runC17Tail(w, kinds[i-len(js)])
 					runC17Again(w, kinds[i-len(js)])
+					runC17Empty(w, kinds[i-len(js)])
 					if i == len(js) {
 						runC17SameName(w)
 					}
@@ -1397,6 +1483,7 @@ func plan(c *hx.Ctx) *hx.Plan {
 			default:
 				runC18Combos(w, comboIns)
 				runC18SameType(w, strs([]string{"a", "b", " ", "é"}, 3))
+				runC18Stacked(w, strs([]string{"a", "b", " ", "é"}, 4))
 			}
 		},
 		Describe: func(i int) string { return fmt.Sprintf("chunk %d", i) },
@@ -1408,11 +1495,12 @@ func plan(c *hx.Ctx) *hx.Plan {
 
 func replay(c *hx.Ctx, key string) []hx.Violation {
 	w := hx.NewReplayWorker()
-	if c.Prop == "C17" && (strings.HasPrefix(key, "nested ") || strings.HasPrefix(key, "tail ") || strings.HasPrefix(key, "again ") || strings.HasPrefix(key, "same-name ")) {
+	if c.Prop == "C17" && (strings.HasPrefix(key, "nested ") || strings.HasPrefix(key, "tail ") || strings.HasPrefix(key, "again ") || strings.HasPrefix(key, "same-name ") || strings.HasPrefix(key, "empty ")) {
 		for _, k := range kinds {
 			runC17Nested(w, k)
 			runC17Tail(w, k)
 			runC17Again(w, k)
+			runC17Empty(w, k)
 		}
 		runC17SameName(w)
 		var out []hx.Violation
@@ -1442,6 +1530,7 @@ func replay(c *hx.Ctx, key string) []hx.Violation {
 	runC18Mappers(w, strs([]string{"a", "b", " ", "é"}, 6))
 	runC18Combos(w, strs([]string{"a", "b", " "}, 4))
 	runC18SameType(w, strs([]string{"a", "b", " ", "é"}, 3))
+	runC18Stacked(w, strs([]string{"a", "b", " ", "é"}, 4))
 	var out []hx.Violation
 	for _, v := range w.Violations() {
 		if v.Key == key {
